@@ -43,10 +43,21 @@ WHY = {
 for p, w, t in sorted(known): out.append(f"| {p} | {w} | {short(t)} | {WHY.get(w, 'not small / design-level')} |")
 out.append("\n### 0.2 Seeded changes (independent sub-agents, given only the property record and a scratch worktree) and which checks catch them\n")
 out.append("Every change below compiles, passes hydraide's existing tests of the touched packages, and was confirmed with its own demonstration in a scratch worktree (`seeded/<ID>/confirm.log`). The checks were run against it through the build overlay (`lib/mutrun.sh`).\n")
-out.append("| seed | change | needs | caught by |\n|---|---|---|---|")
+out.append("| seed | change | needs | caught by | led to |\n|---|---|---|---|---|")
+metas = []
 for f in sorted(glob.glob(ROOT + '/seeded/*/meta.json')):
     m = json.load(open(f))
-    out.append(f"| {m['property']} | {short(m['change'],200)} | {short(m['needs_to_manifest'],200)} | {short(m['detected_by'],260)} |")
+    m['_name'] = os.path.basename(os.path.dirname(f))
+    metas.append(m)
+missed = 0
+for m in metas:
+    note = m.get('note', '')
+    first_miss = 'MISSED' in m.get('detected_by', '') or 'strengthened' in note or 'strengthened' in m.get('checks_run', '')
+    missed += bool(first_miss)
+    led = short(note, 200) if note else ''
+    out.append(f"| {m['_name']} | {short(m['change'],200)} | {short(m['needs_to_manifest'],200)} | {short(m['detected_by'],260)} | {led} |")
+out.append(f"\n{len(metas)} seeded changes in two rounds (round 2 was told the round-1 change and asked for another mechanism and another kind of trigger); "
+           f"{missed} of them were not reported by the checks as they stood and led to a stronger check (or, twice, to a repair of the machinery itself); all are reported now.\n")
 import sys
 sys.path.insert(0, ROOT + '/lib')
 from registry import CHECKS
